@@ -103,6 +103,21 @@ fn explore(ctx: &Ctx) -> Outcome {
             total.absorb(t);
         }
     }
+    // length sweep
+    let sweep = binfam::length_sweep();
+    let t = sweep
+        .par_iter()
+        .fold(Tally::new, |mut t, c| {
+            t.cases += 1;
+            t.nontrivial += 1;
+            if let Some((sig, summary)) = judge(c, &mut t, true) {
+                t.violate(sig, summary, binfam::describe(c));
+            }
+            t
+        })
+        .reduce(Tally::new, Tally::merge);
+    layers.push(json!({"family": "length sweep: label name / string lengths 0..=48, shared or not", "archives": sweep.len(), "completed": true}));
+    total.absorb(t);
     // large archives (tables and text beyond 64 KiB)
     for c in binfam::big_cases() {
         let mut t = Tally::new();
